@@ -96,7 +96,7 @@ def checkState (s : St) (id : Nat) (t : TxRec) : String × St :=
     else ("ok", { s with poolImgs := s.poolImgs ++ [t.spends], pending := s.pending ++ [id] })
 
 /-- full admission: `CheckTx(tx, true)` (basic: semantic, commitments, proofs) then the state check -/
-def admit (s : St) (id : Nat) (t : TxRec) : String × St :=
+def admitTx (s : St) (id : Nat) (t : TxRec) : String × St :=
   match t.broken with
   | some cls => (cls, s)
   | none => checkState s id t
